@@ -1,0 +1,59 @@
+//! Verification hooks for the mqtt-out target (feature `verif-hooks`).
+//!
+//! Add-only: wraps a real `MqttRunner` whose publish queue ends in a channel
+//! the harness can drain, so message selection, topic and payload can be
+//! observed without an MQTT broker.
+use tokio::sync::mpsc;
+
+use super::super::config::{ClientId, Config, Destination};
+use super::{MqttRunner, SenderMsg};
+use crate::comms::DirectUpdate;
+use crate::manager::Component;
+use crate::payload::Update;
+use crate::roto_runtime::types::OutputStreamMessage;
+
+pub struct MqttProbe {
+    runner: MqttRunner<::mqtt::AsyncClient>,
+    rx: mpsc::UnboundedReceiver<SenderMsg>,
+}
+
+impl MqttProbe {
+    /// A real runner for `component` with the given topic template; nothing
+    /// is connected, the publish queue is handed to the probe.
+    pub fn new(component: Component, topic_template: Option<String>) -> Self {
+        let config = Config {
+            destination: Destination { host: "localhost".into(), port: 1883 },
+            qos: Config::default_qos(),
+            client_id: ClientId("verif".into()),
+            topic_template: topic_template
+                .unwrap_or_else(Config::default_topic_template),
+            connect_retry_secs: Config::default_connect_retry_secs(),
+            publish_max_secs: Config::default_publish_max_secs(),
+            queue_size: Config::default_queue_size(),
+            username: None,
+            password: None,
+        };
+        let mut runner = MqttRunner::<::mqtt::AsyncClient>::new(config, component);
+        let (tx, rx) = mpsc::unbounded_channel();
+        runner.pub_q_tx = Some(tx);
+        Self { runner, rx }
+    }
+
+    /// The real `output_stream_message_to_msg`: `(topic, content)`.
+    pub fn to_msg(&self, osm: OutputStreamMessage) -> Option<(String, String)> {
+        self.runner
+            .output_stream_message_to_msg(osm)
+            .map(|m| (m.topic, m.content))
+    }
+
+    /// The real `direct_update`, then everything it queued for publishing,
+    /// in queue order: `(topic, content)`.
+    pub async fn feed(&mut self, update: Update) -> Vec<(String, String)> {
+        self.runner.direct_update(update).await;
+        let mut out = vec![];
+        while let Ok(m) = self.rx.try_recv() {
+            out.push((m.topic, m.content));
+        }
+        out
+    }
+}
